@@ -1,13 +1,61 @@
 """C01 — every real value has one canonical representation (core closure + result monitor + API sweep)."""
-from props import _core, _api
+from props import _core, _api, _civ
 import core_ops
+import cplx_iv_ops as CI
 
 LEVEL = "proof"
 LEAN_MODULES = ["Props.C01", "Props.C01more"]
-ASSUMPTIONS = ["theorems cover the modelled libmpf core; results of the rest of the public API are monitored by a sampling sweep "
+ASSUMPTIONS = ["theorems cover the modelled libmpf core; the raw tuples returned by the libmpc / libmpi operations (complex components, interval endpoints, specials) are monitored on the bit-exact correspondence stream; results of the rest of the public API are monitored by a sampling sweep "
                "(every public callable of mp and iv, MPMATH_STRICT=Y in the workers), not proved"]
 
 
 def run(ctx):
     res = _core.run_core(ctx, core_ops.ALL_CORE_OPS, 120000, 3000000, monitors=("canonical",))
+    # the libmpc / libmpi layer: components of complex results and interval endpoints (special values included)
+    civ = _civ.run_civ(ctx, "C01", CI.COMPLEX_OPS + CI.INTERVAL_OPS, 16000, 400000)
+    res["failing_inputs"] += civ["failing_inputs"]
+    res["disagreements"] += civ["disagreements"]
+    res["coverage"]["complex_and_interval_layer"] = {k: civ["coverage"][k] for k in ("evaluations", "distinct_nontrivial") if k in civ["coverage"]}
+    res["coverage"]["evaluations"] = res["coverage"].get("evaluations", 0) + civ["coverage"].get("evaluations", 0)
+    _state_roundtrips(res)
     return _api.add_sweep(ctx, res, "C01")
+
+
+def _state_roundtrips(res):
+    """the statement's last clause: pickling / copying never produces a second encoding of a value — the raw tuples of values
+    restored through __setstate__ / __reduce__ (pickle protocols 0..5, copy, deepcopy, inside matrices and complex numbers),
+    special values and zero included, must be the canonical encodings of the same values"""
+    import pickle, copy
+    from common import import_repo
+    from spec import is_canonical
+    M = import_repo()
+    mp = M.mp
+    vals = [mp.inf, -mp.inf, mp.nan, mp.zero, mp.mpf(1) / 3, -mp.mpf(5), mp.mpf(2) ** -1080, mp.mpc(mp.inf, 1), mp.mpc(2, mp.nan),
+            mp.mpc(0, -mp.inf), mp.mpc(3, 4)]
+    objs = [("value", v) for v in vals] + [("matrix", M.matrix([[mp.inf, 1], [mp.nan, -mp.inf]])), ("matrix", M.matrix([[mp.mpc(mp.inf, 2), 0]]))]
+    routes = [("pickle%d" % k, (lambda o, k=k: pickle.loads(pickle.dumps(o, k)))) for k in range(pickle.HIGHEST_PROTOCOL + 1)]
+    routes += [("copy", copy.copy), ("deepcopy", copy.deepcopy)]
+    n = noresult = 0
+
+    def raws(o):
+        if hasattr(o, "_mpf_"):
+            return [tuple(o._mpf_)]
+        if hasattr(o, "_mpc_"):
+            return [tuple(t) for t in o._mpc_]
+        if hasattr(o, "rows"):
+            return [t for i in range(o.rows) for j in range(o.cols) for t in raws(o[i, j])]
+        return []
+    for kind, o in objs:
+        want = raws(o)
+        for rname, f in routes:
+            n += 1
+            try:
+                got = raws(f(o))
+            except Exception as e:  # noqa   (a route that raises restores nothing: C40's matter, recorded findings H2-H4)
+                noresult += 1
+                continue
+            bad = [t for t in got if not is_canonical(tuple(int(x) for x in t))]
+            if bad or [tuple(map(int, t)) for t in got] != [tuple(map(int, t)) for t in want]:
+                res["failing_inputs"].append({"site": "libmpf.from_pickable", "what": "%s of %r restores the raw tuple(s) %r, stored %r" %
+                                              (rname, o, got[:3], want[:3]), "input": {"route": rname, "object": repr(o)}})
+    res["coverage"]["state_roundtrips"] = {"routes_run": n, "raised": noresult}
